@@ -137,3 +137,28 @@ package routing
 //@   loop 3 invariant forall(j, 0, i, lagged[lagSteps - inflow.len + j] == inflow.at(j))
 //@   loop 4 invariant 0 <= i && i <= lagSteps
 //@   loop 4 invariant forall(j, 0, i, lagged[j] == inflow.at(inflow.len - lagSteps + j))
+
+// ---- C11: storage routing ----
+
+//@ spec srEvapFlux(initialFluxMax real, area real, netEvapRate real) real = min(initialFluxMax, area*netEvapRate)
+//@ spec srNewStorage(storage real, inflow real, lateral real, evapFlux real, duration real) real = max(storage + (inflow + lateral - evapFlux)*duration, 0.0)
+//@ spec srIndexStorage(q real, routingPower real, routingConstant real, Qlimit real, Klimit real, Koffset real, deadStorage real) real = ite(q <= 0, deadStorage, ite((routingPower <= 1 && q < Qlimit) || (routingPower > 1 && q > Qlimit), Klimit*q + deadStorage, routingConstant*pow(q, routingPower) - Koffset + deadStorage))
+
+//@ func runRouting(qIndex, inflow, lateral, initialFluxMax, storage, area, netEvapRate, deadStorage, duration, bias, routingPower, routingConstant, Qlimit, Klimit, Koffset) returns (massBalance, outflow, SIndex)
+//@   safety C11
+//@   requires duration > 0
+//@   ensures [C11.rr-index-storage] SIndex == srIndexStorage(qIndex, routingPower, routingConstant, Qlimit, Klimit, Koffset, deadStorage)
+//@   ensures [C11.rr-outflow] outflow == max(0.0, srNewStorage(storage, inflow, lateral, srEvapFlux(initialFluxMax, area, netEvapRate), duration) - SIndex) / duration && outflow >= 0
+//@   ensures [C11.rr-mass-balance] massBalance == ite(bias < 0.999, (qIndex - bias*(inflow + lateral))*duration/(1 - bias) + SIndex - srNewStorage(storage, inflow, lateral, srEvapFlux(initialFluxMax, area, netEvapRate), duration), 0.0)
+
+// calcOutflow with zero inflow bias (Klimit = k, Koffset = 0, Qlimit = 0 for m <= 1)
+//@ func calcOutflow(timestep, inflow, lateral, bias, prevQi, prevOutflow, prevStorage, netEvapRate, area, deadStorage, duration, routingPower, routingConstant, Qlimit, Klimit, Koffset) returns (qi, outflow, storage)
+//@   safety C11
+//@   panics allowed
+//@   requires bias == 0 && Klimit == routingConstant && Koffset == 0 && Qlimit == 0
+//@   requires routingConstant >= 0 && 0 < routingPower && routingPower <= 1 && deadStorage >= 0 && duration > 0
+//@   requires inflow >= 0 && lateral >= 0 && area >= 0 && prevStorage >= 0
+//@   ensures [C11.sr-nonneg] outflow >= 0 && storage >= 0
+//@   ensures [C11.sr-balance] implies(outflow > 0, storage == prevStorage + (inflow + lateral - srEvapFlux(prevStorage/duration + inflow, area, netEvapRate) - outflow)*duration)
+//@   ensures [C11.sr-balance-zero-outflow] implies(outflow == 0, storage == srNewStorage(prevStorage, inflow, lateral, srEvapFlux(prevStorage/duration + inflow, area, netEvapRate), duration))
+//@   ensures [C11.sr-no-water-created] storage + outflow*duration <= srNewStorage(prevStorage, inflow, lateral, srEvapFlux(prevStorage/duration + inflow, area, netEvapRate), duration)
